@@ -287,4 +287,14 @@ example : sumRows.length = 1 ∧ accepted (verify toySum sumRows ns0 sumDah) = t
   ⟨by decide, by decide, nsdata_sound nonvacuity_okEds_shape (dah := sumDah) rfl rfl sumRows
     (proofOK_of_dec (by decide)) ⟨nonvacuity_toySum_nocoll, toySum_len⟩⟩
 
+/-- **non-vacuity of `nsdata_complete`**: all hypotheses of `FullCompleteness`, including the one on the hash (the toy hash
+    has no collision among `edsInputs`, a sub-list of the list checked above), hold of the concrete square; the theorem,
+    applied, yields namespace data that equals the brute-force scan and is accepted -/
+example : ∃ rows, getNamespaceData toySum okEds ns0 sumDah = .ok rows ∧
+    specHonest okEds.width (rawSquare okEds) ns0 (rows.map (fun p => (p.1, p.2.shares.map Share.data)))
+      (accepted (verify toySum (rows.map Prod.snd) ns0 sumDah)) = true :=
+  nsdata_complete toySum okEds sumDah ns0
+    ⟨nonvacuity_toySum_nocoll.mono (fun y hy => by unfold hashedC06; exact List.mem_append_left _ hy), toySum_len⟩
+    nonvacuity_okEds_shape (by decide) rfl rfl
+
 end Lumina.Props.C06
